@@ -2,28 +2,51 @@
 
 pub mod be;
 pub mod big;
+pub mod c07;
 pub mod c08;
 pub mod c09;
+pub mod c10;
+pub mod c11;
+pub mod c12;
+pub mod ops;
 pub mod util;
 
 use pvc_engine::{Run, load_replay, parse_args};
 
 fn main() {
     let args = parse_args();
+    macro_rules! check {
+        ($level:expr, $run:path, $replay:path) => {{
+            let mut run = Run::new(&args, $level);
+            match &args.replay {
+                Some(p) => $replay(&mut run, &load_replay(p)),
+                None => $run(&mut run),
+            }
+            run.finish()
+        }};
+    }
     let code = match args.property.as_str() {
-        "C08" => {
+        "C07" => check!("exploration", c07::run, c07::replay),
+        "C08" => check!("exploration", c08::run, c08::replay),
+        "C09" => check!("exploration", c09::run, c09::replay),
+        "C11" => check!("model_checking", c11::run, c11::replay),
+        "C10" => {
             let mut run = Run::new(&args, "exploration");
             match &args.replay {
-                Some(p) => c08::replay(&mut run, &load_replay(p)),
-                None => c08::run(&mut run),
+                Some(p) => {
+                    c10::replay(&mut run, &load_replay(p));
+                }
+                None => c10::run_hal(&mut run),
             }
             run.finish()
         }
-        "C09" => {
+        "C12" => {
             let mut run = Run::new(&args, "exploration");
             match &args.replay {
-                Some(p) => c09::replay(&mut run, &load_replay(p)),
-                None => c09::run(&mut run),
+                Some(p) => {
+                    c12::replay(&mut run, &load_replay(p));
+                }
+                None => c12::run_hal(&mut run),
             }
             run.finish()
         }
